@@ -203,8 +203,10 @@ impl<'a> Gen<'a> {
         if depth == 0 || self.rng.chance(1, 5) { return self.leaf(t); }
         let d = depth - 1;
         match t.clone() {
-            Ty::V(Sc::B, 1) => match self.rng.below(8) {
+            Ty::V(Sc::B, 1) => match self.rng.below(9) {
                 0 => format!("!{}", self.atom(t, d)),
+                // a condition that is itself a conditional (it keeps its parentheses as the condition of another one)
+                7 => { let c = self.expr(t, d); let a = self.leaf(t); let b = self.expr(t, d); format!("{} ? {} : {}", self.wrap(c), a, self.wrap(b)) }
                 1 | 2 => { let a = self.expr(t, d); let b = self.expr(t, d); format!("{} {} {}", self.wrap(a), self.rng.pick(&["&&", "||"]), self.wrap(b)) }
                 3 | 4 | 5 => {
                     let nt = Ty::V(*self.rng.pick(&[Sc::I, Sc::U, Sc::F]), 1);
